@@ -150,7 +150,15 @@ func (v *Vue) evaluateNodeAsElement(ctx VueContext, node *html.Node, depth int) 
 
 	// Handle v-for if present
 	if vFor := helpers.GetAttr(node, "v-for"); vFor != "" {
-		loopNodes, err := v.evalFor(ctx, node, vFor, depth+1)
+		loopNode := node
+		if helpers.HasAttr(node, "v-else") || helpers.HasAttr(node, "v-else-if") {
+			// The chain this element belongs to has been decided by the caller: the per-item
+			// instances must not be read as (orphaned) chain members again.
+			loopNode = helpers.DeepCloneNode(node)
+			helpers.RemoveAttr(loopNode, "v-else")
+			helpers.RemoveAttr(loopNode, "v-else-if")
+		}
+		loopNodes, err := v.evalFor(ctx, loopNode, vFor, depth+1)
 		if err != nil {
 			return nil, err
 		}
